@@ -135,13 +135,67 @@ def inst_ops(g, rng, tier):
     return ops, info
 
 
+def a64_sweep(res, rng):
+    """AArch64 leg: every database form and C02's near-miss alternatives through a64::Assembler::_emit without and with
+    kValidateAssembler (harness/c02.cpp with one added line); the Lean monitor `violationA64` judges each pair."""
+    from props import c02
+    src = (vlib.VERIF / "harness" / "c02.cpp").read_text()
+    hook = "  a64::Assembler a(&code);\n"
+    if src.count(hook) != 1:
+        res.violation("harness/c02.cpp changed shape: the validation switch of the AArch64 sweep cannot be inserted", {}, False, key="obligation")
+        return
+    src = src.replace(hook, hook + '  if (getenv("C13_VALIDATE")) a.add_diagnostic_options(DiagnosticOptions::kValidateAssembler);\n')
+    dst = vlib.VERIF / "harness" / "c13_a64.cpp"
+    text = "// GENERATED by tools/props/c13.py from harness/c02.cpp (+ the kValidateAssembler switch) - do not edit.\n" + src
+    if not dst.exists() or dst.read_text() != text:
+        dst.write_text(text)
+    h = vlib.build_harness("c13_a64")
+    forms, applied, insts, rows, enc, _ = c02.generate()
+    name2ids = {}
+    for r in insts[1:]:
+        name2ids.setdefault(r["name"], []).append(r["id"])
+    ops, meta = c02.gen_ops(forms, name2ids, rng, "quick")
+    limit = 60000 if res.tier == "quick" else 400000
+    if len(ops) > limit:
+        keep = sorted(rng.sample(range(len(ops)), limit))
+        ops = [ops[i] for i in keep]
+    if len(ops) < 1000:
+        res.violation("the AArch64 generator produced almost nothing (%d ops)" % len(ops), {}, False, key="empty")
+        return
+    off, rc0, err0 = vlib.run_lines([str(h)], ops)
+    on, rc1, err1 = vlib.run_lines([str(h)], ops, env={"C13_VALIDATE": "1"})
+    if rc0 != 0 or rc1 != 0 or len(off) != len(ops) or len(on) != len(ops):
+        i, tail = vlib.locate_abort([str(h)], ops) if rc0 != 0 else (0, err1[-500:])
+        res.violation("AArch64 sweep: harness abort / protocol failure rc=%d/%d at %r: %s" % (rc0, rc1, ops[min(i, len(ops) - 1)], tail[-300:]),
+                      {"ops": [ops[min(i, len(ops) - 1)]]}, found_input=True, key="a64:abort")
+        return
+
+    def enc_of(a):
+        w = a.split()
+        if w[0] == "ok":
+            return "Ok:" + ("_".join(w[1:]) or "-")
+        if w[0] == "err":
+            return w[1] + ":" + ("_".join(w[2:]) or "-")
+        return "Other:" + "_".join(w)
+    mon, _, _ = vlib.run_model("C13", ["mon_a64 e0=%s e1=%s" % (enc_of(a), enc_of(b)) for a, b in zip(off, on)])
+    if len(mon) != len(ops) or any(m == "bad-op" for m in mon):
+        res.violation("AArch64 sweep: monitor protocol failure", {}, False, key="protocol")
+        return
+    bad = [(o, a, b, m) for o, a, b, m in zip(ops, off, on, mon) if m != "good"]
+    res.coverage["a64_sweep"] = {"lines": len(ops), "accepted": sum(1 for a in off if a.startswith("ok")), "validation_changes": len(bad)}
+    if bad:
+        o, a, b, m = bad[0]
+        res.violation("a64:%s: %s -> without validation %r, with validation %r (%d such inputs)" % (m[4:], o, a, b, len(bad)),
+                      {"ops": [o], "off": a, "on": b, "how": "C13_VALIDATE=1 h_c13_a64"}, True, key="a64:" + m[4:])
+
+
 def run(res):
     rng = vlib.rng_for(res.seed, PID)
     res.assumptions += [
         "db/isa_x86.json read through db/index.js is the statement of the ISA; tools/x86forms.py decides what a representative instantiation of a form is",
         "'implemented' = accepted (validate and emit) by the pinned release, vendored in lean/implemented_forms.txt",
         "the encoder is not modelled: validator-vs-encoder agreement is a differential on the real code, judged by Spec/X86Agree.lean",
-        "AArch64 has no validator (a64::InstInternal::validate returns kOk): only the name round trip is checked there",
+        "AArch64 has no validator (a64::InstInternal::validate returns kOk): the name round trip and 'switching validation on changes nothing' (sweep over C02's generator, Spec violationA64) are checked there",
         "kernel-proved x86 rows: one instantiation per database form (allowed mode) + all excluded-mode rows; the other instantiations are "
         "evaluated by the compiled model and compared with the real validator on every run",
         "label operands are bound at offset 0 of an otherwise empty .text section"]
@@ -302,6 +356,7 @@ def run(res):
                           "not_accepted_by_pinned_release": sum(1 for i in g["insts"] if i["allowed"] and not i["implemented"]),
                           "excluded_mode_instances": sum(1 for i in g["insts"] if not i["allowed"]),
                           "db_aliases_checked": len(g["aliases"]), "db_aliases_of_unimplemented_instructions": len(g["aliases_skipped"])}
+    a64_sweep(res, vlib.rng_for(res.seed, PID + "/a64"))
     step = max(1, len(ops) // 6)
     res.add_samples([{"op": ops[i], "impl": impl[i], "model": model[i]} for i in range(0, len(ops), step)])
 
